@@ -35,7 +35,7 @@ def plan(tier, seed):
 def conclude(agg):
     c = agg['counters']
     return [f'monitor counter {k} is zero' for k in ('san/reads', 'san/cells', 'permutations_run', 'thread_orders_run', 'levels_wide', 'cases/reuse_sharing',
-                                                     'logic_permutations', 'level_structure_checks')
+                                                     'logic_permutations', 'level_structure_checks', 'lsan/operand_checks')
             if c.get(k, 0) == 0]
 
 
@@ -143,11 +143,21 @@ def check_case(case, ctx):
         stim = np.random.default_rng(case['stim_seed']).integers(0, 256, size=ls0.s[0].shape, dtype=np.uint8)
         ls0.s[0] = stim
         ls0.s_to_c(); ls0.c_prop(); ls0.c_to_s()
+        from .. import shadow_logic
         for j in range(max(1, k // 2)):
             ls = LogicSim(b.c, sims=8, m=m, c_reuse=case['c_reuse'], strip_forks=case['strip_forks'])
             moved = permute_levels(ls, nrng)
+            rep3 = []
+            lsan = shadow_logic.LogicSanitizer(ls, b.c, lambda kk, mm: rep3.append((kk, mm)), case['strip_forks']) if j == 0 else None
             ls.s[0] = stim
             ls.s_to_c(); ls.c_prop(); ls.c_to_s()
+            if lsan is not None:
+                for kk, v in lsan.stats.items():
+                    ctx.count('lsan/' + kk, v)
+                for kk, mm in rep3[:2]:
+                    ctx.violation('logic-sanitizer-' + kk, f'{mm}; LogicSim m={m} (ops permuted inside levels) reuse={case["c_reuse"]} strip={case["strip_forks"]}; {G.net_text(net)[:300]}', case)
+                if rep3:
+                    return
             ctx.count('logic_permutations', 1 if moved else 0)
             if not np.array_equal(ls.s[1], ls0.s[1]):
                 ctx.violation('schedule-permutation', f'LogicSim m={m}: results differ after permuting the operations inside the published levels; '
